@@ -1,5 +1,6 @@
 import GoaktVerif.Driver.Util
 import GoaktVerif.Model.C44
+import GoaktVerif.Spec.C44
 
 /-!
 Line protocol for C44.  Case: `<deliveryConfirmation 0|1> op op …` with ops
@@ -111,7 +112,51 @@ def model (line : String) : String :=
     ";".intercalate (("init " ++ digest x0) :: runOps { x := x0 } ops)
   | [] => "bad-case"
 
-def judge (_line : String) : String := "ok"
+/-! ### judge: rebuild the snapshots from the harness trace -/
+
+/-- ids of `a:b:c,a:b:c` -/
+def idsOf (inner : String) : Option (List Nat) :=
+  if inner = "" then some [] else (inner.splitOn ",").mapM fun e => ((e.splitOn ":").headD "").toNat?
+
+/-- strip `prefix[` … `]` -/
+def bracket (tok pre : String) : Option String :=
+  if tok.startsWith (pre ++ "[") && tok.endsWith "]" then some ((tok.drop (pre.length + 1)).toString.dropEnd 1).toString else none
+
+def snapOf (op seg : String) : Option (Option Spec.C44.Snap) := do
+  if seg = "-" || seg = "bad-op" then return none
+  let toks := words seg
+  let pendTok ← toks.find? (·.startsWith "pend=[")
+  let pend ← (bracket pendTok "pend=").bind idsOf
+  let bTok ← toks.find? (·.startsWith "b=[")
+  let bInner ← bracket bTok "b="
+  let unc ← if bInner = "" then some [] else
+    (bInner.splitOn "|").mapM fun b =>
+      match (b.splitOn "/") with
+      | [_, _, _, _, _, _, u] => (bracket u "").bind idsOf
+      | _ => none
+  let noticeOf (piece : String) : Option (Option Nat) :=
+    match piece.splitOn "(" with
+    | ["F", args] => (match args.splitOn "," with | [_, i, _] => i.toNat?.map some | _ => none)
+    | [_, _] => some none
+    | _ => none
+  let notices : List Nat ← match toks.find? (·.startsWith "pu:") with
+    | some t => ((((t.drop 3).toString.splitOn ")").filter (· ≠ "")).mapM noticeOf).map (fun (l : List (Option Nat)) => l.filterMap id)
+    | none => some []
+  let kind := if op = "up" then 1 else if op.startsWith "q" || op.startsWith "k" then 2 else 0
+  return some { kind := kind, held := pend ++ unc.flatten, notices := notices }
+
+def judge (line : String) : String :=
+  let (c, o) := splitTab line
+  match words c with
+  | dc :: ops =>
+    let segs := o.splitOn ";"
+    if segs.length != ops.length + 1 then "bad trace does not match the script" else
+    match (("init" :: ops).zip segs).mapM (fun (op, seg) => snapOf op seg) with
+    | none => "bad unparsable trace"
+    | some snaps =>
+      let m := Spec.C44.Mon.run (dc == "1") {} (snaps.filterMap id)
+      if m.ok then "ok" else "bad conservation: " ++ m.why
+  | [] => "bad-case"
 
 def run (args : List String) : IO UInt32 := runWith args model judge
 
